@@ -40,7 +40,9 @@ class BackendHarness:
     horizon = 3000
 
     def __init__(self, runtime, ct, method="GET", warm=False, short_writes=False, uds=False, timeouts="all", consume="request",
-                 body="bytes", early=False, payload=7, retries=0):
+                 body="bytes", early=False, payload=7, retries=0, framing=None):
+        self.framing = framing        # None (Content-Length) | "close" | "http10" | "chunked" | "interim": how the server frames the answer (C02: the
+                                      # runtime's end-of-stream convention must end a close-delimited body, not break it)
         self.retries = retries        # connection retries of the pool (C20: establishment failures of the real backends are retried)
         self.consume = consume        # "request" | "close-mid-body" (close-delimited response, pool closed after the first chunk, iteration continues)
         self.body = body              # "bytes" | "iter" (chunked upload on HTTP/1.1)
@@ -78,7 +80,7 @@ class BackendHarness:
         fakeos.install()
         ct = self.ct
         topo = scen.Topology(scen.CONN_TYPES[ct], respond_at="head" if self.early else "complete",
-                             **({"framing": "close"} if self.consume == "close-mid-body" else {}))
+                             **({"framing": "close"} if self.consume == "close-mid-body" else ({"framing": self.framing} if self.framing else {})))
         log: dict = {}
         w = SeqWorld(chooser, topo.router, variant=self.variant, merge_roots=[log], faults=0, fault_kinds=fakeos.ALPHABET[self.runtime])
         w.env.short_writes = False
@@ -233,6 +235,11 @@ class BackendHarness:
                 viol("C15", "spurious-error", f"nothing failed but the call raised {exc_class(e)}: {e}")
         elif vic[2] != b"<victim>" and self.consume == "request":
             viol("C01", "wrong-body", f"victim got {vic[2]!r}")
+        if self.framing and not inj and self.consume == "request":
+            if vic[0] == "exc":
+                viol("C02", "framed-body-error", f"a well-formed {self.framing}-framed response, nothing failed, yet the call raised {exc_class(vic[1])}: {vic[1]}", framing=self.framing)
+            elif vic[2] != b"<victim>":
+                viol("C02", "body", f"{self.framing}-framed response delivered as {vic[2]!r}", framing=self.framing)
         if self.short_writes and not inj and log.get("payload") is not None and vic[0] == "exc":
             prop = "C13" if scen.CONN_TYPES[self.ct]["proto"] == "h2" else "C03"
             viol(prop, "upload-body", f"after short writes (no failure injected) the request failed with {exc_class(vic[1])}: {vic[1]}")
@@ -330,6 +337,14 @@ def specs(tier, purpose="all"):
         for rt in RUNTIMES:
             for ct in ("h11", "h11tls", "h2alpn"):
                 out.append((1, make_spec(MOD, "BackendHarness", runtime=rt, ct=ct, method="GET", retries=1)))
+    if purpose == "framings":
+        for rt in RUNTIMES:
+            for ct in (["h11", "h11tls"] if quick else ["h11", "h11tls", "fwd", "tunnel", "socks"]):
+                for fr in ("close", "http10", "chunked", "interim"):
+                    for warm in (False, True):
+                        if quick and warm and fr in ("chunked", "interim"):
+                            continue
+                        out.append((1, make_spec(MOD, "BackendHarness", runtime=rt, ct=ct, method="GET", warm=warm, framing=fr)))
     if purpose in ("all", "early"):
         # a streamed upload answered early, one failure anywhere, then a follow-up request on the same pool
         for rt in RUNTIMES:
